@@ -45,6 +45,7 @@ CONSTANTS
   MaxReqSnaps = 0
   ReqSnapNodes = {}
   MaxUnreach = 0
+  PartialPersist = FALSE
 CONSTRAINT Bound
 INVARIANT Judge
 INVARIANT Replay
